@@ -61,13 +61,13 @@ CHECKS = {
             TB + "; lib/e6.py oracle = executable statement of the path condition and ownership rules; generator", "DESIGN.md §5 C06", "E4"),
     "C03": ("translation_validation",
             "CrossHair/z3 symbolic execution of (CPython on the source || walk over the CFG the real CFGBuilder built) per corpus program, symbolic inputs and symbolic opaque-call results; real check() decides acceptance",
-            "Three levels: the CFG the real builder produces, the checked CFGs the real checker produces (E5) and the HUGR the real back end emits (E7), each executed side by side with CPython. For each program of a generated classical corpus (120 quick / 1500 thorough + fixed and array-flavoured ones; structs, generic helpers, symbolic ranges; if/elif/else, bounded while, for over range, break/continue/return, dead code, nested defs, unpacking, "
+            "Three levels: the CFG the real builder produces, the checked CFGs the real checker produces (E5) and the HUGR the real back end emits (E7), each executed side by side with CPython. For each program of a generated classical corpus (120 quick / 900 thorough + fixed and array-flavoured ones; structs, generic helpers, symbolic ranges; if/elif/else, bounded while, for over range, break/continue/return, dead code, nested defs, unpacking, "
             "walrus, conditional expressions, short-circuit and chained comparisons) that the real check() accepts, every path of CPython's execution and of the block walk over the real builder's CFG is explored for symbolic inputs; "
-            "results, panics and event traces must agree (E5 / E7 on the first 36 quick / 400-500 thorough programs; paths with a 64-bit overflow or inside a known C04 region are outside). Programs inside the region of the known hoisting finding are probed separately.",
+            "results, panics and event traces must agree (E5 / E7 on the first 36 quick / 300 thorough programs; paths with a 64-bit overflow or inside a known C04 region are outside). Programs inside the region of the known hoisting finding are probed separately.",
             TB + "; lib/e4.py block walker (edge convention successors[1] = true), models of MakeIter/IterNext; lib/e5.py, lib/e7.py interpreters; the corpus generators", "DESIGN.md §5 C03", "E4+E5+E7"),
     "C05": ("translation_validation",
             "CrossHair/z3 symbolic execution of (CPython on the source || walk over the real CFG) comparing ordered event traces, for symbolic inputs and symbolic results of every opaque call",
-            "Three levels (real CFG, real checked CFGs, HUGR emitted by the real back end), each against CPython: effect-heavy generated programs (60 quick / 800 thorough + fixed + array-flavoured): calls of opaque f/g/h, emit, panic interleaved with operators, and/or/not, "
+            "Three levels (real CFG, real checked CFGs, HUGR emitted by the real back end), each against CPython: effect-heavy generated programs (60 quick / 600 thorough + fixed + array-flavoured): calls of opaque f/g/h, emit, panic interleaved with operators, and/or/not, "
             "comparisons, conditional expressions, walrus, tuples, subscript reads / stores / augmented stores, borrowed arrays, in assignment, condition, argument and return position. Event traces (callee, argument values) must be identical on every path; at HUGR level "
             "every dataflow region must in addition order its possibly side-effecting nodes. Five known findings (hoisting before earlier operands, double evaluation of a chained comparison's middle operand, reflected comparisons, index before a temporary "
             "container, outer index before inner index) are delimited by syntactic region predicates and re-established by probes inside the regions.",
